@@ -78,6 +78,9 @@ type C struct {
 	hookOwner   *C
 	rllMemo     map[string]int
 	viaMemo     map[string]bool
+	fatMemo  map[string]bool
+	wrapMemo    map[*ssa.Function][4]int
+	wrapMeth    map[*ssa.Function]string
 	fab         map[*ssa.Parameter][]*ssa.Function
 	fabArgOnly  map[*ssa.Function]bool
 	rlgMemo     map[string]int
